@@ -6,6 +6,7 @@ import (
 	"bytes"
 	"context"
 	"errors"
+	"io"
 	"os"
 	"os/exec"
 	"runtime"
@@ -32,6 +33,9 @@ type Cmd struct {
 	Env     []string // extra environment (KEY=VALUE)
 	Dir     string
 	Timeout time.Duration
+	// how Stdin reaches the process: "" = a pipe fed at once; "file" = redirected from a regular file (`< file`);
+	// "slow" = a pipe fed in small blocks with pauses (a slow producer)
+	StdinMode string
 }
 
 var panicMarkers = [][]byte{
@@ -51,7 +55,37 @@ func Run(bin string, c Cmd) Result {
 	ctx, cancel := context.WithTimeout(context.Background(), to)
 	defer cancel()
 	cmd := exec.CommandContext(ctx, bin, c.Args...)
-	cmd.Stdin = bytes.NewReader(c.Stdin)
+	switch c.StdinMode {
+	case "file":
+		if f, err := os.CreateTemp("", "crdverif-stdin-*"); err == nil {
+			_, _ = f.Write(c.Stdin)
+			_, _ = f.Seek(0, 0)
+			cmd.Stdin = f
+			defer func() { f.Close(); os.Remove(f.Name()) }()
+		} else {
+			cmd.Stdin = bytes.NewReader(c.Stdin)
+		}
+	case "slow":
+		pr, pw := io.Pipe()
+		cmd.Stdin = pr
+		go func() {
+			b := c.Stdin
+			for len(b) > 0 {
+				n := 700
+				if n > len(b) {
+					n = len(b)
+				}
+				if _, err := pw.Write(b[:n]); err != nil {
+					break
+				}
+				b = b[n:]
+				time.Sleep(3 * time.Millisecond)
+			}
+			pw.Close()
+		}()
+	default:
+		cmd.Stdin = bytes.NewReader(c.Stdin)
+	}
 	var so, se bytes.Buffer
 	cmd.Stdout = &limitWriter{w: &so, n: 64 << 20}
 	cmd.Stderr = &limitWriter{w: &se, n: 8 << 20}
